@@ -107,10 +107,30 @@ package db
 //@   modifies nothing
 //@   sqltext "SELECT aggchain_proof FROM certificate_info WHERE height = $1;"
 //@   consttext "%s ORDER BY height DESC LIMIT 1;"
+// recording a certificate's new status (the status poll's write, C13; what the pending gate reads, C02): one UPDATE for
+// the status, time and certificate id given, inside a transaction of its own that is committed only if the statement
+// succeeded; success means committed. statusUpdates / lastStatusUpdate* observe the statement (assumed at the
+// interface, A5).
+//@ ghost var statusUpdates int
+//@ ghost var lastStatusUpdateStatus int
+//@ ghost var lastStatusUpdateAt int
+//@ interface github.com/agglayer/aggkit/db/types.Txer.Exec@db.(*AggSenderSQLStorage).UpdateCertificateStatus (self, query, args)
+//@   requires len(args) == 3 && typeIs(args[0], agglayertypes.CertificateStatus) && typeIs(args[1], uint32)
+//@   modifies writesOutsideTx, stmtFail, statusUpdates, lastStatusUpdateStatus, lastStatusUpdateAt
+//@   ensures writesOutsideTx == old(writesOutsideTx) + ite(self == lastTx && txState(lastTx) == 0, 0, 1)
+//@   ensures stmtFail == old(stmtFail) + ite(result1 == nil, 0, 1)
+//@   ensures result1 == nil ==> statusUpdates == old(statusUpdates) + 1 && lastStatusUpdateStatus == unbox(args[0], agglayertypes.CertificateStatus) && lastStatusUpdateAt == unbox(args[1], uint32)
+//@   ensures result1 != nil ==> statusUpdates == old(statusUpdates) && lastStatusUpdateStatus == old(lastStatusUpdateStatus) && lastStatusUpdateAt == old(lastStatusUpdateAt)
 //@ func (a *AggSenderSQLStorage) UpdateCertificateStatus
 //@   props C02 C13
-//@   trusted
 //@   sqltext "UPDATE certificate_info SET status = $1, updated_at = $2 WHERE certificate_id = $3;"
+//@   requires a != nil && a.db != nil && a.logger != nil
+//@   requires lastTx < heapTop
+//@   modifies heap, lastTx, writesOutsideTx, stmtFail, statusUpdates, lastStatusUpdateStatus, lastStatusUpdateAt
+//@   ensures[success-means-the-new-status-was-written-and-committed] result == nil ==> statusUpdates == old(statusUpdates) + 1 && lastStatusUpdateStatus == newStatus && lastStatusUpdateAt == updatedAt && lastTx != old(lastTx) && txState(lastTx) == 1
+//@   ensures[all-or-nothing] lastTx != old(lastTx) ==> ((result == nil ==> txState(lastTx) == 1) && (result != nil ==> txState(lastTx) == 2))
+//@   ensures[the-statement-goes-through-its-transaction] writesOutsideTx == old(writesOutsideTx)
+//@   ensures[at-most-one-statement] statusUpdates <= old(statusUpdates) + 1
 //@ func deleteCertificate
 //@   props C02 C13
 //@   sqltext "DELETE FROM certificate_info WHERE certificate_id = $1;"
